@@ -572,6 +572,7 @@ func ruleInvalidate(c *Ctx) {
 func ruleTokenFanout(c *Ctx) {
 	p := c.P
 	fTok := p.Field("server.wsConn.token")
+	fTid := p.Field("server.wsConn.tid")
 	fSubs := p.Field("server.wsConn.subs")
 	reacc := p.Method("server.Subscription.reaccess")
 	if fTok == nil || reacc == nil {
@@ -592,6 +593,12 @@ func ruleTokenFanout(c *Ctx) {
 		sp.Classify = func(t *Tracer, fr *Frame, in ssa.Instruction) []Ev {
 			if _, ok := isStoreTo(in, fTok); ok {
 				return []Ev{{Kind: "token="}}
+			}
+			if st, ok := isStoreTo(in, fTid); ok {
+				if _, isP := t.Resolve(fr, st.Val).V.(*ssa.Parameter); isP {
+					return []Ev{{Kind: "tid="}}
+				}
+				return []Ev{{Kind: "tid=?"}}
 			}
 			if _, ok := isCallTo(in, reacc); ok {
 				return []Ev{{Kind: "reaccess", Stop: true}}
@@ -631,6 +638,10 @@ func ruleTokenFanout(c *Ctx) {
 		for _, path := range tr.Paths {
 			if !hasKind(path, "token=") {
 				continue
+			}
+			if countKind(path, "tid=") != 1 {
+				bad = "a token event does not replace the token id together with the token (a stale tid keeps the connection addressed by token resets of a token it no longer holds): " + tr.FmtPath(path)
+				break
 			}
 			if hasKind(path, "old==nil") {
 				continue // first token: nothing to revalidate
